@@ -12,7 +12,7 @@ MUTANTS = [
          expect="C01.a/process_task/mark-every-backward-edge"),
     dict(id="C01.b-drop-drain_all", prop="C01", file=CG + "dirty_worker.rs",
          old="        for remaining_edge in stripped_buffer.drain_all() {",
-         new="        for remaining_edge in stripped_buffer.drain_all().take(0) {",
+         new="        if Arc::strong_count(&stripped_buffer) > 1 { return write_tx; }\n        for remaining_edge in stripped_buffer.drain_all() {",
          expect="C01.b/dirty_propagate_from_batch/drain-after-barrier"),
     dict(id="C01.c-unordered-insert-arm-dropped", prop="C01", file=CG + "database.rs",
          old="""                        for edge in query_ids {
@@ -638,4 +638,56 @@ MUTANTS = [
          old="        let code = self.read_u32()?;\n        char::from_u32(code)",
          new="        let mut buf = [0u8; 4];\n        self.reader.read_exact(&mut buf)?;\n        let code = u32::from_le_bytes(buf);\n        char::from_u32(code)",
          expect="C12.c/primitive/char"),
+    # ------------------------------------------------------------------ C13
+    dict(id="C13.b-hashmap-iteration-order", prop="C13", file="crates/stable_hash/src/lib.rs",
+         old="""        for (key, value) in self {
+            combined = combined.wrapping_add(state.sub_hash(&mut |sub| {
+                key.stable_hash(sub);
+                value.stable_hash(sub);
+            }));
+        }""",
+         new="""        for (key, value) in self {
+            key.stable_hash(state);
+            value.stable_hash(state);
+            combined = combined.wrapping_add(H::Hash::default());
+        }""",
+         expect="C13.b/order-independent/HashMap"),
+    dict(id="C13.b-dashset-xor-shift-combiner", prop="C13", file="crates/stable_hash/src/lib.rs",
+         old="""        for value in self.iter() {
+            combined = combined.wrapping_add(state.sub_hash(&mut |sub| {
+                value.stable_hash(sub);
+            }));
+        }""",
+         new="""        for value in self.iter() {
+            let h = state.sub_hash(&mut |sub| {
+                value.stable_hash(sub);
+            });
+            combined.stable_hash(state);
+            combined = h;
+        }""",
+         expect="C13.b/order-independent/DashSet"),
+    dict(id="C13.a-vec-no-length", prop="C13", file="crates/stable_hash/src/lib.rs",
+         old="impl<T: StableHash> StableHash for Vec<T> {\n    fn stable_hash<H: StableHasher + ?Sized>(&self, state: &mut H) {\n        state.write_length_prefix(self.len());\n",
+         new="impl<T: StableHash> StableHash for Vec<T> {\n    fn stable_hash<H: StableHasher + ?Sized>(&self, state: &mut H) {\n",
+         expect="C13.a/length-before-repetition/Vec<T>"),
+    dict(id="C13.a-result-no-discriminant", prop="C13", file="crates/stable_hash/src/lib.rs",
+         old="impl<T: StableHash, E: StableHash> StableHash for Result<T, E> {\n    fn stable_hash<H: StableHasher + ?Sized>(&self, state: &mut H) {\n        let discriminant = std::mem::discriminant(self);\n        discriminant.stable_hash(state);\n",
+         new="impl<T: StableHash, E: StableHash> StableHash for Result<T, E> {\n    fn stable_hash<H: StableHasher + ?Sized>(&self, state: &mut H) {\n",
+         expect="C13.a/discriminant-before-alternation/Result<T, E>"),
+    dict(id="C13.c-arc-hashed-by-address", prop="C13", file="crates/stable_hash/src/lib.rs",
+         old="impl<T: StableHash + ?Sized> StableHash for std::sync::Arc<T> {\n    fn stable_hash<H: StableHasher + ?Sized>(&self, state: &mut H) {\n        (**self).stable_hash(state);",
+         new="impl<T: StableHash + ?Sized> StableHash for std::sync::Arc<T> {\n    fn stable_hash<H: StableHasher + ?Sized>(&self, state: &mut H) {\n        (std::sync::Arc::as_ptr(self).cast::<()>() as usize).stable_hash(state);",
+         expect="C13.c/no-nondeterministic-input"),
+    dict(id="C13.d-nan-not-normalised", prop="C13", file="crates/stable_hash/src/lib.rs",
+         old="        let normalized = if f.is_nan() { f64::NAN } else { f };",
+         new="        let normalized = if f.is_nan() { f } else { f };",
+         expect="C13.d/float-nan-normalised"),
+    dict(id="C13.d-u32-native-endian", prop="C13", file="crates/stable_hash/src/lib.rs",
+         old="    fn write_u32(&mut self, i: u32) { self.write(&i.to_le_bytes()); }",
+         new="    fn write_u32(&mut self, i: u32) { self.write(&i.to_ne_bytes()); }",
+         expect="C13.d/integers-little-endian"),
+    dict(id="C13.d-sub-hash-fresh-hasher", prop="C13", file="crates/stable_hash/src/lib.rs",
+         old="        let mut sub_hasher = *self;\n",
+         new="        let mut sub_hasher = Self::new_with_keys(self.finish128().h1, std::process::id().into());\n",
+         expect="C13."),
 ]
